@@ -25,6 +25,7 @@ import (
 // Case is what the property consumes: the source text and the environment of the simulation.
 type Case struct {
 	Src      string
+	Cfg      string     // assembler configuration: default | nodyn | minword | minsame (asm.go)
 	In       [][]uint64 // value stream offered on every external input
 	InGap    []int
 	OutStall []int
